@@ -396,6 +396,12 @@ pub fn check_status_received(sim: &Sim, who: &str, want: &StatusSpec, got: &Stat
         sim.violation("C02/status-details-differ", format!("{who}: handler details {}B, caller sees {}B", want.details.len(), got.details().len()));
     }
     check_md_received(sim, who, &want.md, got.metadata());
+    // the three status fields are the status itself: none of them is left behind as "custom metadata"
+    for k in ["grpc-status", "grpc-message", "grpc-status-details-bin"] {
+        if got.metadata().clone().into_headers().contains_key(k) {
+            sim.violation("C04/status-field-left-in-metadata", format!("{who}: the status read back carries {k:?} among its custom metadata"));
+        }
+    }
 }
 
 /// First non-reserved key whose received values (through the typed accessors) differ from what
